@@ -2,7 +2,7 @@
   Line-protocol driver of C12 (Retry middleware).
 
   Request (one line, fields in this order):
-    retry mr=<int> init=<ns> max=<ns> mul=<p>/<q> rf=<a>/<b> el=<ns> hook=<0|1>
+    retry mr=<int> init=<ns> max=<ns> mul=<p>/<q> rf=<a>/<b> el=<ns> hook=<0|1> log=<0|1>
           outs=<o0>,<o1>,…      one outcome per possible handler call: f<k> = fails, s<k> = succeeds, with k output messages
                                  (call i returns the messages i.0 … i.(k-1) and, when it fails, the error e<i>)
           cancel=<j|->           the message context is cancelled from inside call j
@@ -66,7 +66,7 @@ def outcomesOf (s : String) : Option (List Outcome) :=
 
 def parseReq (toks : List String) : Option Req :=
   match toks with
-  | [mr, ini, mx, mul, rf, el, hk, outs, cancel, _sleep, n, d, ts, te, tr] => do
+  | [mr, ini, mx, mul, rf, el, hk, lg, outs, cancel, _sleep, n, d, ts, te, tr] => do
     let mr ← (← kv "mr" mr).toInt?
     let ini ← (← kv "init" ini).toNat?
     let mx ← (← kv "max" mx).toNat?
@@ -76,6 +76,8 @@ def parseReq (toks : List String) : Option Req :=
     let el ← (← kv "el" el).toNat?
     let hk ← (← kv "hook" hk).toNat?
     if hk > 1 then none
+    let lg ← (← kv "log" lg).toNat?
+    if lg > 1 then none
     let outs ← outcomesOf (← kv "outs" outs)
     let cs ← kv "cancel" cancel
     let cancel ← (if cs = "-" then some none else cs.toNat?.map some)
@@ -267,6 +269,7 @@ def handle (line : String) : String :=
     | some r => modelObs r
     | none => "bad-op"
   | "P" :: "retry" :: rest =>
+    if ((rest.dropWhile (· != "##")).drop 1).any (fun t => t.startsWith "panic(") then "violated:panic" else
     match parseReq (rest.takeWhile (· != "##")), parseObs ((rest.dropWhile (· != "##")).drop 1) with
     | some r, some o => monitor r o
     | _, _ => "bad-op"
